@@ -26,8 +26,14 @@ ASSUMPTIONS = [
     "I2CMaster: commands are written only while the machine reports idle (software polls the idle bit), one command bit per write (compound commands are marked TODO in i2c.py), "
     "read only after a byte has been written since the last (re)start, no clock stretching, the slave drives SDA only in the acknowledge slot of a write and the data slots of a read and "
     "changes it only while SCL is low; clock load values 0..2",
-    "Timer / Watchdog / PWM: CSR values <= 3; event latency is the constant register pipeline of EventSourceProcess; at reset the Timer's count is 0, which the rising-edge event source "
-    "reports once (documented edge semantics, past level = 0); PWM is judged in steady state only (no CSR write for period + 2 cycles), period >= 1, width <= period not required",
+    "Timer / Watchdog / PWM: CSR values <= 3 (thorough: also 5); event latency is the constant register pipeline of EventSourceProcess; at reset the Timer's count is 0, which the "
+    "rising-edge event source reports once (documented edge semantics, past level = 0); Timer period in periodic mode = reload + 1 cycles (0 is counted); Watchdog: time-out flag = "
+    "(remaining == 0) sampled in enabled non-feed cycles, reset output while (enabled & timed out & reset mode) holds and has held for reset_delay cycles; "
+    "PWM is judged in steady state only (no CSR write for period + 2 cycles), period >= 1 whenever enabled",
+    "UART FIFO wrapper: software writes RXTX only after reading TXFULL = 0 since its last write; a byte the PHY delivers while RXFULL = 1 is lost (no back-pressure, documented by RXFULL); "
+    "FIFO depth 2, one direction per configuration (they share only the event manager)",
+    "one clock cycle after reset is not judged where a pin register resets to the active level (SPIMaster cs_n resets to 0) and the UART line idles >= 2 clocks after reset",
+    "configurations whose name carries a bound (2_transfers, first_frame, lengths ..) are bounded explorations; a cap hit is reported as non-exhaustive",
 ]
 
 REGISTRY = {}       # name -> (tier, factory)
